@@ -59,10 +59,10 @@ fn faults() -> Vec<Fault> {
     ]
 }
 
-/// The fault as a statement whose value is needed (an operator with an unused result is not
-/// executed at all: C01 known finding discarded-operator-not-evaluated).
+/// The fault as a statement whose value is discarded (operators with an unused result are
+/// executed since koto fix fd65c53).
 fn as_stmt(f: &Fault) -> X {
-    if f.name.starts_with("throw") { f.e.clone() } else { assign("zz", f.e.clone()) }
+    f.e.clone()
 }
 
 /// Sites: given the fault, returns (definitions, expression that triggers it, marker prints
